@@ -2,9 +2,18 @@
    totality of each component that consumes target-controlled data, for ALL inputs. *)
 From Coq Require Import List NArith Arith.
 From MDW Require Import Bytes StackInfo StackInfoStrict StackRef StackIncl Sanitize Elf ElfProofs SoVersion
-                        DsoDebug DsoStream TotalityProofs Ptrace PtraceProofs.
+                        DsoDebug DsoStream TotalityProofs Ptrace PtraceProofs
+                        MemWriter Writer MiniDump MiniDumpTotal.
 Import ListNotations.
 Local Open Scope N_scope.
+
+(* The composed builder: the reduced whole dump (thread list with stacks, contexts and patched records, application
+   memory, memory list, exception record) on the writer monad with the real write_at semantics - a write whose offset
+   lies beyond the end of the buffer traps - never takes the Panic outcome, for every world, configuration, carried
+   state, thread count and image size. *)
+Theorem C02_composed_dump_never_panics : forall reset w cfg ca, dump reset w cfg ca empty_wst <> MemWriter.Panic.
+Proof. exact dump_never_panics. Qed.
+Print Assumptions C02_composed_dump_never_panics.
 
 (* stack pointer anywhere in the 64-bit space (unmapped, top of the address space, misaligned): the
    guard-page search returns within 258 iterations without overflow *)
